@@ -6,9 +6,9 @@
 (* None of them is part of the VIEW.                                       *)
 EXTENDS Groups, Json
 
-CONSTANTS ConsumerSet, StreamSet, MaxParts, MaxOps, Coords, MaxDeletes, GetDs, MaxRestores, Shapes
-VARIABLES last, nOps, nDel, nRes, taint
-mcvars == <<vars, last, nOps, nDel, nRes, taint>>
+CONSTANTS ConsumerSet, StreamSet, MaxParts, MaxOps, Coords, MaxDeletes, GetDs, MaxRestores, Shapes, MaxPauseOps
+VARIABLES last, nOps, nDel, nRes, nPz, taint
+mcvars == <<vars, last, nOps, nDel, nRes, nPz, taint>>
 
 Rep == CHOOSE v \in Servers : TRUE
 G == gs[Rep]
@@ -25,44 +25,53 @@ Step(a) == /\ nOps < MaxOps /\ nOps' = nOps + 1 /\ last' = a
 MCInit ==
   /\ gs = [v \in Servers |-> NoGroup]
   /\ parts \in [StreamSet -> 0..MaxParts]
+  /\ paused = {}
   /\ idx = 0
   /\ obs = Obs("Open", "", "", <<>>)
-  /\ last = [a |-> "Open"] /\ nOps = 0 /\ nDel = 0 /\ nRes = 0 /\ taint = {}
+  /\ last = [a |-> "Open"] /\ nOps = 0 /\ nDel = 0 /\ nRes = 0 /\ nPz = 0 /\ taint = {}
 
 MCCreateStream(s, n) ==
   /\ ~Exists(s) /\ DoCreateStream(s, n)
-  /\ Step([a |-> "CreateStream", s |-> s, n |-> n]) /\ UNCHANGED <<nDel, nRes, taint>>
+  /\ Step([a |-> "CreateStream", s |-> s, n |-> n]) /\ UNCHANGED <<nDel, nRes, nPz, taint>>
 MCDeleteStream(s) ==
   /\ Exists(s) /\ nDel < MaxDeletes /\ DoDeleteStream(s)
-  /\ Step([a |-> "DeleteStream", s |-> s]) /\ nDel' = nDel + 1 /\ UNCHANGED <<nRes, taint>>
+  /\ Step([a |-> "DeleteStream", s |-> s]) /\ nDel' = nDel + 1 /\ UNCHANGED <<nRes, nPz, taint>>
 MCCreateGroup(c, S, coord, sh) ==
   /\ ~GroupExists /\ S # {} /\ DoProposeCreateGroup(c, NamesOf(S, sh), coord)
   /\ Step([a |-> "CreateGroup", c |-> c, streams |-> ListOf(S, sh), coord |-> coord])
-  /\ UNCHANGED <<nDel, nRes, taint>>
+  /\ UNCHANGED <<nDel, nRes, nPz, taint>>
 MCJoin(c, S, sh) ==
   /\ GroupExists /\ c \notin Members(G) /\ S # {} /\ DoProposeJoin(c, NamesOf(S, sh))
-  /\ Step([a |-> "Join", c |-> c, streams |-> ListOf(S, sh)]) /\ UNCHANGED <<nDel, nRes, taint>>
+  /\ Step([a |-> "Join", c |-> c, streams |-> ListOf(S, sh)]) /\ UNCHANGED <<nDel, nRes, nPz, taint>>
 \* how = "leave" | "expire": an expiry is the coordinator's liveness timer
 \* proposing the same operation
 MCLeave(c, how) ==
   /\ GroupExists /\ c \in Members(G) /\ (how = "expire" => G.coord \in Servers) /\ DoLeave(c)
-  /\ Step([a |-> "Leave", c |-> c, how |-> how]) /\ UNCHANGED <<nDel, nRes, taint>>
+  /\ Step([a |-> "Leave", c |-> c, how |-> how]) /\ UNCHANGED <<nDel, nRes, nPz, taint>>
 MCChangeCoordinator(coord) ==
   /\ GroupExists /\ coord # G.coord /\ DoChangeCoordinator(coord)
-  /\ Step([a |-> "ChangeCoordinator", coord |-> coord]) /\ UNCHANGED <<nDel, nRes, taint>>
+  /\ Step([a |-> "ChangeCoordinator", coord |-> coord]) /\ UNCHANGED <<nDel, nRes, nPz, taint>>
+\* pause / resume of one partition that exists (MaxPauseOps of them per behaviour), anywhere between the
+\* group operations: the feature interaction pause x groups
+MCPause(s, p) ==
+  /\ nPz < MaxPauseOps /\ PartExists(s, p) /\ <<s, p>> \notin paused /\ DoPause(s, p)
+  /\ Step([a |-> "Pause", s |-> s, p |-> p]) /\ nPz' = nPz + 1 /\ UNCHANGED <<nDel, nRes, taint>>
+MCResume(s, p) ==
+  /\ nPz < MaxPauseOps /\ <<s, p>> \in paused /\ DoResume(s, p)
+  /\ Step([a |-> "Resume", s |-> s, p |-> p]) /\ nPz' = nPz + 1 /\ UNCHANGED <<nDel, nRes, taint>>
 AllCPerms == UNION {{q \in [1..Cardinality(S) -> S] : \A i, j \in DOMAIN q : i # j => q[i] # q[j]} : S \in SUBSET ConsumerSet}
 MCRestore(v, ord) ==
   /\ nRes < MaxRestores /\ gs[v].exists
   /\ {ord[i] : i \in DOMAIN ord} = Members(gs[v]) /\ Len(ord) = Cardinality(Members(gs[v]))
   /\ DoRestore(v, ord)
-  /\ Step([a |-> "Restore", srv |-> v, order |-> ord]) /\ nRes' = nRes + 1 /\ UNCHANGED nDel
+  /\ Step([a |-> "Restore", srv |-> v, order |-> ord]) /\ nRes' = nRes + 1 /\ UNCHANGED <<nDel, nPz>>
   /\ taint' = taint \cup (IF RestoreNeutral(gs[v]) THEN {} ELSE {"restored"})
 \* not counted: does not change the state
 \* d = how far behind the current epoch the client's epoch is
 MCGetAssignments(v, c, d) ==
   /\ gs[v].exists /\ gs[v].epoch >= d /\ DoGetAssignments(v, c, gs[v].epoch - d)
   /\ last' = [a |-> "GetAssignments", srv |-> v, c |-> c, d |-> d, e |-> gs[v].epoch - d]
-  /\ UNCHANGED <<nOps, nDel, nRes, taint>>
+  /\ UNCHANGED <<nOps, nDel, nRes, nPz, taint>>
 
 MCNext ==
   \/ \E s \in StreamSet, n \in 1..MaxParts : MCCreateStream(s, n)
@@ -71,6 +80,7 @@ MCNext ==
   \/ \E c \in ConsumerSet, S \in SUBSET StreamSet, sh \in Shapes : MCJoin(c, S, sh)
   \/ \E c \in ConsumerSet, how \in {"leave", "expire"} : MCLeave(c, how)
   \/ \E coord \in Coords : MCChangeCoordinator(coord)
+  \/ \E s \in StreamSet, p \in 0..(MaxParts - 1) : MCPause(s, p) \/ MCResume(s, p)
   \/ \E v \in Servers, ord \in AllCPerms : MCRestore(v, ord)
   \/ \E v \in Servers, c \in ConsumerSet, d \in GetDs : MCGetAssignments(v, c, d)
 
@@ -103,5 +113,5 @@ Inv_Impl == ImplInv
 \* separate config: TLC must report a violation)
 Raw_Converged == C12_Converged
 
-MCView == <<gs, parts, idx, nOps, nDel, nRes, taint>>
+MCView == <<gs, parts, paused, idx, nOps, nDel, nRes, nPz, taint>>
 =============================================================================
